@@ -63,7 +63,7 @@ def run(ctx):
             n = len(model)
             lens = [len(s) for s in model]
             ops = ["row_slice", "row_slice", "row_mask", "row_fancy", "col_slice", "col_reverse", "eq_char", "copy", "ravel", "concat", "tolist", "assign_row", "assign_elem", "neq_char",
-                   "str_equal_ragged", "str_equal_str", "as_string_array", "view_copy_assign", "view_copy_assign", "concat_assign", "eq_ragged_other_enc", "rows_to_array_assign", "string_array_eq_list"]
+                   "str_equal_ragged", "str_equal_str", "as_string_array", "view_copy_assign", "view_copy_assign", "concat_assign", "eq_ragged_other_enc", "rows_to_array_assign", "string_array_eq_list", "from_encoded_array"]
             if n:
                 ops += ["row_int", "row_int", "elem", "row_int_col_slice"]
             if n and min(lens) > 0:
@@ -302,6 +302,8 @@ def run(ctx):
                 return "bool", [a == U(p["s"]) for a in model]
             if op == "as_string_array":
                 return "pylist", list(model)
+            if op == "from_encoded_array":
+                return "pylist", list(model)
             if op == "string_array_eq_list":
                 return "bool", [(a == U(b)) != bool(p["neq"]) for a, b in zip(model, p["other"])]
         if kind == "flat":
@@ -464,6 +466,10 @@ def run(ctx):
             if op == "as_string_array":
                 from bionumpy.string_array import as_string_array
                 return [str(x) for x in as_string_array(obj).tolist()]
+            if op == "from_encoded_array":
+                from bionumpy.encoded_array import from_encoded_array
+                out_ = from_encoded_array(obj)
+                return [str(x) for x in (out_ if isinstance(out_, list) else [out_])] if len(obj) else []
             if op == "string_array_eq_list":
                 from bionumpy.string_array import as_string_array
                 sa = as_string_array(obj)
@@ -603,6 +609,14 @@ def run(ctx):
                 ctx.count("programs_with_a_long_row")
             obj = bnp.as_encoded_array(rows, ENC[ename]) if ename != "ascii" else bnp.as_encoded_array(rows)
             model = [up(ename, s) for s in rows]
+        if r.random() < 0.12:
+            # the array went through pickle / deepcopy (a worker process, a cache): same letters, another object graph
+            import copy as _copy, pickle as _pickle
+            try:
+                obj = _pickle.loads(_pickle.dumps(obj)) if (shape == "ragged" and r.random() < 0.5) else _copy.deepcopy(obj)
+                ctx.count("programs_on_pickled_or_deepcopied_arrays")
+            except Exception:
+                pass
         if r.random() < 0.3:
             for ch in r.sample(list(alpha), min(3, len(alpha))):
                 one = bnp.as_encoded_array(ch, ENC[ename]) if ename != "ascii" else bnp.as_encoded_array(ch).copy()
